@@ -51,7 +51,7 @@ for sid in sorted(os.listdir(ROOT)):
             f"{k}: " + ("caught" if c["exit"] else "MISSED") for k, c in v.get("checks", {}).items())
     elif v.get("obsolete"):
         caught = "OBSOLETE: " + v["obsolete"][:160]
-    rows.append(f"| {sid} | {m.get('property')} | {m.get('title','')[:90]} | {m.get('needs_to_manifest','')[:110]} | {'yes' if (v.get('confirmed') or v.get('confirmed_at_creation')) else 'no'} | {caught} |")
+    rows.append(f"| {sid} | {m.get('property')} | {m.get('title','')[:90]} | {m.get('needs_to_manifest','')[:110]} | {'yes' if (v.get('confirmed') or v.get('confirmed_at_creation') or (ah and not ah.get('obsolete') and ah.get('demo_without_change_exit') == 0 and ah.get('demo_with_change_exit') not in (0, None) and (ah.get('baseline') or {}).get('missing') == 0)) else 'no'} | {caught} |")
 open(os.path.join(ROOT, "README.md"), "w").write(
     "# Seeded changes\n\nEach directory holds a change to /repo written by an independent agent that saw only the property text "
     "(patch.diff, demo, meta.json incl. our verification record). `confirmed` = demo exits 0 without / non-zero with the change and all "
